@@ -16,6 +16,8 @@
 (***************************************************************************)
 EXTENDS Integers, Sequences, FiniteSets, TLC, Json, IOUtils, SequencesExt
 
+W == INSTANCE Wire
+
 Rec == ndJsonDeserialize(IOEnv.TRACE)
 N   == Len(Rec)
 
@@ -33,7 +35,7 @@ G0 == [ cfg |-> [e |-> "none"], run |-> 0, pubs |-> 0, roundStart |-> 0,
         est |-> 0, estMax |-> 0, estD |-> FALSE, everAns |-> FALSE,
         acc |-> <<>>, lowest |-> 0, maxLargest |-> 0, lastLargest |-> 0,
         lastSt |-> [e |-> "none"], stBefore |-> [e |-> "none"], lastDlv |-> "",
-        ended |-> FALSE, failedSeen |-> 0, inuseSeen |-> 0, known |-> 0 ]
+        lastWire |-> [k |-> -1], ended |-> FALSE, failedSeen |-> 0, inuseSeen |-> 0, known |-> 0 ]
 
 (***************************************************************************)
 (* Ghost updates                                                           *)
@@ -77,6 +79,8 @@ Step(gg, e) ==
             ELSE [gg EXCEPT !.lastDlv = e.label, !.stBefore = gg.lastSt]
       [] e.e = "st" ->
             [gg EXCEPT !.lastSt = e, !.lastDlv = ""]
+      [] e.e = "wire" ->
+            [gg EXCEPT !.lastWire = e]
       [] e.e = "pub" ->
             LET tt == TargetTtls(gg) IN
             [gg EXCEPT !.acc = FoldLeft(AccAdd, @, e.probes),
@@ -223,6 +227,38 @@ C09_NoPanic == At("end") => ~E.panic /\ ~E.aborted
 \* a capacity error, not with a panic / out-of-bounds access
 C07_Storm == At("end") /\ Cfg.storm /\ Len(E.fired) > 0 => E.result = "err:capacity" /\ ~E.panic /\ E.snap_err
 C07_StormSeq == At("send") => E.seq < 65535 /\ (Len(p.wire) > 0 => E.seq = p.wire[Len(p.wire)].seq + 1)
+
+(***************************************************************************)
+(* C11  every probe put on the wire is well-formed and as configured         *)
+(* (the wire event is the independent decoder's reading of the bytes handed *)
+(* to the send socket, completed by the kernel headers where the tracer     *)
+(* supplies none; the expectation is the Wire!Encode table)                  *)
+(***************************************************************************)
+PatternOK(w) == w.pattern = Cfg.pattern \/ w.pattern = -2
+C11_Wire == At("send") /\ E.wire /\ p.lastWire.k = E.k =>
+    LET x == W!Encode(Cfg, [seq |-> E.seq, ttl |-> E.ttl, round |-> E.round])
+        w == p.lastWire
+    IN  /\ w.decoded /\ w.dst_is_target /\ w.src_is_src
+        /\ w.ttl = E.ttl /\ w.fam = Cfg.fam
+        /\ Cfg.fam = 4 => w.tos = Cfg.tos /\ w.df
+        /\ w.ok_len
+        /\ E.sport = x.sport /\ E.dport = x.dport
+        /\ CASE Cfg.proto = "icmp" ->
+                  /\ w.proto = (IF Cfg.fam = 4 THEN 1 ELSE 58)
+                  /\ w.icmp_type = (IF Cfg.fam = 4 THEN 8 ELSE 128) /\ w.icmp_code = 0
+                  /\ w.icmp_id = Cfg.trace_id /\ w.icmp_seq = E.seq /\ E.id = Cfg.trace_id
+                  /\ w.total_len = Cfg.psize /\ PatternOK(w) /\ w.ok_l4_sum
+             [] Cfg.proto = "udp" ->
+                  /\ w.proto = 17 /\ w.sport = x.sport /\ w.dport = x.dport
+                  /\ w.udp_len = x.udplen /\ w.ok_l4_sum
+                  /\ Cfg.strat = "paris" => w.udp_sum = E.seq /\ w.payload_len = 2
+                  /\ (Cfg.strat = "dublin" /\ Cfg.fam = 4) => w.ip_id = E.seq
+                  /\ (Cfg.strat = "dublin" /\ Cfg.fam = 6) => w.magic /\ w.payload_len = x.paylen /\ PatternOK(w)
+                  /\ (Cfg.strat = "classic" \/ (Cfg.strat = "dublin" /\ Cfg.fam = 4)) => w.total_len = Cfg.psize /\ PatternOK(w)
+             [] OTHER ->
+                  /\ w.proto = 6 /\ w.syn /\ w.sport = x.sport /\ w.dport = x.dport
+\* every successful send put exactly one datagram on the wire
+C11_OneDatagram == At("send") /\ E.out = "ok" => E.wire /\ p.lastWire.k = E.k
 
 (***************************************************************************)
 (* C10  hop table                                                          *)
